@@ -75,6 +75,24 @@ def run(ck, facts):
     ck.rule("R4", "validation restates implied bounds: validate_ty_in_method compares use-site and def-site `longer` sets and reports a missing bound")
     ck.not_decided += ["that the reported edge set is exactly the semantic outlives-closure for every signature (algorithmic statement over inputs)"]
 
+    js_runtime_rest_rule(ck, "R1")
+    # `is_self = true` tells lower_generics to substitute the lifetimes cached for `Self`: only the functions that lower a receiver may say so outright; every
+    # type lowerer passes what the type itself says (`ty.is_self()`), or a parameter's lifetimes are replaced by the receiver's and its borrow edges vanish
+    nlg = 0
+    for f in core.fn_list:
+        if "hir" not in f or "::hir::lowering::" not in f["path"] or f.get("dk") == "Closure":
+            continue
+        for n in C.walk(C.fn_body(f)):
+            if n.get("k") == "mcall" and n.get("m") == "lower_generics" and len(n.get("a") or []) >= 3:
+                nlg += 1
+                a2 = C.strip(n["a"][2])
+                if a2.get("k") == "lit" and str(a2.get("v")).lower() == "true":
+                    recv_fn = any("SelfParam" in str(t_) for t_ in (f.get("inputs") or []))
+                    ck.expect(recv_fn, "R3", "%s/is_self-literal-only-for-receivers#%d" % (C.norm_path(f["path"]).split("::")[-1], sum(1 for i in ck.instances if "/is_self-literal-only-for-receivers#" in i["key"])),
+                              "receiver lowering", "%s passes `is_self = true` to lower_generics although it does not lower a receiver: the lifetimes written on the type are replaced by the "
+                              "ones cached for Self, and the borrow edges from that parameter to the output are lost" % C.norm_path(f["path"]).split("::")[-1], C.loc(f, n.get("ln")))
+    if nlg < 10:
+        ck.bad("R3", "lower_generics/floor", "only %d lower_generics call sites found in hir::lowering (13 counted)" % nlg)
     # ---------------- R1
     gens = [("js::gen::TyGenContext::generate_method", "js"), ("dart::TyGenContext::gen_method_info", "dart"), ("kotlin::TyGenContext::gen_method", "kotlin"),
             ("nanobind::ty::TyGenContext::gen_method_info", "nanobind")]
@@ -970,3 +988,30 @@ def run(ck, facts):
     # an optional slice field must be allocated in the arena of the lifetime it borrows for, like a plain slice field (rule of C15.R6 on Dart's allocator lookups)
     import c15
     c15.dart_alloc_rules(ck, "R1", facts)
+
+
+def js_runtime_rest_rule(ck, rule):
+    """The edge arrays a generated method hands to the JS runtime (`...Edges` lists the returned object keeps alive) reach the function that appends to them as
+    the same list of arrays: a runtime function that collects them with a rest parameter and forwards them to another rest-parameter function spreads them again
+    (forwarding the collected array itself appends the arena to a temporary, and nothing keeps the borrowed allocation alive)."""
+    txt = C.read_repo("tool/templates/js/runtime.mjs")
+    rest_fns = {m.group(1): m.group(2) for m in re.finditer(r"\b(\w+)\s*\(([^()]*\.\.\.\s*\w+)\s*\)\s*\{", txt)}
+    n_ = 0
+    for m in re.finditer(r"\b(\w+)\s*\(([^()]*\.\.\.\s*(\w+))\s*\)\s*\{", txt):
+        name, rest = m.group(1), m.group(3)
+        # body: up to the matching brace
+        i_, depth = m.end(), 1
+        while i_ < len(txt) and depth:
+            depth += {"{": 1, "}": -1}.get(txt[i_], 0)
+            i_ += 1
+        body = txt[m.end():i_]
+        for c in re.finditer(r"\b(\w+)\s*\(([^()]*)\)", body):
+            if c.group(1) in rest_fns and c.group(1) != name and re.search(r"\b%s\b" % rest, c.group(2)):
+                n_ += 1
+                spread = re.search(r"\.\.\.\s*%s\b" % rest, c.group(2)) is not None
+                ck.expect(spread, rule, "js/runtime.mjs/%s/forwards-rest-spread#%d" % (name, n_ - 1), "%s(...%s)" % (c.group(1), rest),
+                          "%s collects its edge arrays in the rest parameter `%s` and passes the collected array itself to %s, which takes a rest parameter too: the arena is appended to a "
+                          "temporary array of arrays and to none of the caller's edge arrays, so nothing keeps the allocation the returned object borrows from alive" % (name, rest, c.group(1)),
+                          "tool/templates/js/runtime.mjs")
+    if n_ < 1:
+        ck.bad(rule, "js/runtime.mjs/forwards-rest/floor", "no rest-parameter function forwarding to another rest-parameter function found in runtime.mjs (1 counted: maybeCreateWith -> createWith)", "tool/templates/js/runtime.mjs")
